@@ -60,4 +60,30 @@ def runIP (dec : Bytes → Dec) (k : Nat) (mem : Bytes) : Nat × Bytes :=
   let s' := moveIP k { s with i := mem.length - k }
   (s'.e, s'.mem.take s'.e)
 
+/-- The machine with EARLY MOVES: at the start of any iteration chosen by `early` (an arbitrary
+oracle) the pending literal run is moved down and `f = i` is set before anything is decided —
+what `Utf16Parse` does once the first `\\uXXXX` has parsed, before it knows whether a high
+surrogate is followed by a low one (`enc.go:335-338`).  `c07_inplace_eq` holds for every
+`early`: such a move changes no byte that is read later. -/
+def loopIPe (early : IP → Bool) (dec : Bytes → Dec) (k : Nat) : Nat → IP → IP
+  | 0, s => s
+  | fuel + 1, s =>
+    if early s = true ∧ s.f < s.i then loopIPe early dec k fuel { moveIP k s with f := s.i }
+    else
+    let t := s.mem.drop (k + s.i)
+    if t = [] then s else
+    match dec t with
+    | .stop => s
+    | .skip n => if 0 < n then loopIPe early dec k fuel { s with i := s.i + n } else s
+    | .emit bs n =>
+      if 0 < n then
+        let s2 := writeIP (moveIP k s) bs
+        loopIPe early dec k fuel { s2 with i := s.i + n, f := s.i + n }
+      else s
+
+def runIPe (early : IP → Bool) (dec : Bytes → Dec) (k : Nat) (mem : Bytes) : Nat × Bytes :=
+  let s := loopIPe early dec k (2 * mem.length + 2) ⟨mem, 0, 0, 0⟩
+  let s' := moveIP k { s with i := mem.length - k }
+  (s'.e, s'.mem.take s'.e)
+
 end Golib.C07
